@@ -113,5 +113,35 @@ P("C07", "exploration",
   [H("main", "h_store", 2000, 300000)], [A_SAN, A_VCLK, "the eviction policy is not modelled (the statement does not fix one); the held set is read from private state"],
   {"routing.queries-nonempty": 1000, "routing.refresh-checks": 5000})
 
+P("C01", "exploration",
+  "part node: real Node with a socketpair peer session under the frozen clock; history of 10..60 store/overwrite/fetch/export/peer REQUEST/listing/tick/store-get/clock operations over 1..4 ids, "
+  "clock advanced to deadline-1ns / exactly the deadline / +1ns; oracle = reference map id -> (payload, ciphertext, deadline = store time + clamp(ttl)); part store: the same on a bare ChunkStore; distinct = operation-sequence hash",
+  [H("node", "h_node", 1500, 200000, hprop="C01"), H("store", "h_store", 2000, 300000, hprop="C01s")], [A_SAN, A_VCLK],
+  {"reads.fetch.live": 500, "reads.fetch.dead": 300, "reads.peer-request.served": 200, "reads.listings": 300, "store.reads-live": 1000, "clock.advance-exactly-to-deadline": 300})
+
+P("C02", "exploration",
+  "case = random Config (zero / negative / inverted / huge values incl. INT64_MIN/MAX in every TTL, rotation, announce and PoW field) -> effective limits checked, then 4 (quick) / 8 (thorough) stores with requested TTLs from the same set; "
+  "the four recorded lifetimes (chunk record, manifest expiry, shard record, self announcement) are read from node state under the frozen clock and must equal clamp(request or default, min, max) exactly; distinct = effective (min, max, default, rotation)",
+  [H("node", "h_node", 3000, 200000, hprop="C02")], [A_SAN, A_VCLK, "the control-plane TTL header is checked by the C28 harness (same in-process ControlServer)"],
+  {"config.sanitised": 3000, "lifetimes.checked": 20000})
+
+P("C03", "exploration",
+  "case = 4..15 manifest arrivals (ingest, ANNOUNCE over a socketpair session with announced TTLs 0..2^32-1, replica receipt with genuine ciphertext, fetch request) with expiry at now-1e5s .. now+min-1/min/min+1 .. max+-1 .. 10 years .. the largest encodable second; "
+  "oracle: a manifest with remaining < min TTL or expired leaves the derived-state snapshot identical; every derived deadline (key shares, replica, provider contact, locator, pending fetch) <= manifest expiry and <= arrival + max TTL; distinct = arrival-sequence hash",
+  [H("node", "h_node", 2500, 300000, hprop="C03")], [A_SAN, A_VCLK],
+  {"arrivals.must-reject": 3000, "arrivals.accepted": 3000, "arrivals.accepted-far-future": 300, "derived.deadlines-checked": 10000})
+
+P("C05", "exploration",
+  "case = history of stores (unique ids), ingests, announces, lookups between deadline and tick, ticks and clock advances on a Node with a 1 s cleanup interval; after every tick that cleaned up, private state is scanned for anything with deadline <= T "
+  "(chunks, locators, holders, key shares, routing contacts, cached manifests, swarm plans), audit_ttl() lists must be empty, notifications are matched exactly-once against the set of expired local chunks; distinct = operation-sequence hash",
+  [H("node", "h_node", 1500, 150000, hprop="C05")], [A_SAN, A_VCLK],
+  {"cleanup.ticks-scanned": 2000, "cleanup.notifications": 1000, "ops.lookup-between-deadline-and-tick": 100})
+
+P("C11", "exploration",
+  "case = store on node A (payload sizes 0,1,63,64,65,4 KiB,70000 / 1 MiB thorough; (t,n) incl. (1,1),(255,255); chunk ids whose ChaCha counter wraps) then local fetch, held bytes vs reference ChaCha20 under the key reconstructed by an independent GF(256) Lagrange, "
+  "replica import + fetch on node B, the CLI's decrypt_chunk_with_manifest; then 8-12 corruptions (ciphertext bit flips/truncation/extension, manifest hash/nonce/share byte/share index/threshold/id) on fresh nodes: must return nullopt and leave state unchanged unless the mutated pair is still consistent; distinct = (size, t, n, id byte)",
+  [H("node", "h_node", 600, 60000, hprop="C11")], [A_SAN, A_OSSL, A_VCLK],
+  {"roundtrip.stores": 500, "roundtrip.replica-imports": 400, "tamper.attempts": 3000})
+
 NOT_APPLICABLE = {}
 HOOK_COMMITS = []
